@@ -80,12 +80,12 @@ Section WithRec.
   Definition deser_instr (start : Z) (i : einstr) (locals : list (string * value)) (r : rstate) : rres (list (string * value)) :=
     match i with
     | EField f =>
+      if f_optional f && negb (r_remaining r >? 0) then
+        (r, Ok (match f_name f with Some n => locals ++ [(n, VNone)] | None => locals end))
+      else
       match len_expr f locals with
       | Err e => (r, Err e)
       | Ok len =>
-        if f_optional f && negb (r_remaining r >? 0) then
-          (r, Ok (match f_name f with Some n => locals ++ [(n, VNone)] | None => locals end))
-        else
           let '(r', v) := deser_value (f_ty f) len (f_padded f) 0 r in
           match v with
           | Err e => (r', Err e)
